@@ -230,8 +230,19 @@ def sharded(modname, fn, items, extra=None, nproc=None, chunk=None):
     if nproc == 1 or len(tasks) == 1:
         results = [_worker(t) for t in tasks]
     else:
-        with ctx.Pool(min(nproc, len(tasks))) as pool:
-            results = pool.map(_worker, tasks, chunksize=1)
+        # a ProcessPoolExecutor (not multiprocessing.Pool): when a worker dies - e.g. killed for lack of memory - the
+        # remaining futures fail with BrokenProcessPool instead of the map waiting for ever
+        import concurrent.futures as cf
+        import gc
+        gc.collect()
+        gc.freeze()          # what the parent holds (parsed state graphs) stays shared with the forked workers
+        try:
+            with cf.ProcessPoolExecutor(min(nproc, len(tasks)), mp_context=ctx) as pool:
+                results = list(pool.map(_worker, tasks, chunksize=1))
+        except cf.process.BrokenProcessPool as e:
+            raise MachineryFailure('a replay worker died (out of memory?): %s' % e)
+        finally:
+            gc.unfreeze()
     out = []
     for st, r in results:
         if st == 'err':
